@@ -312,6 +312,39 @@ def totality():
     return h
 
 
+# ---------------------------------------------------------------- the shipped character-set validator on a symbolic character
+def charset():
+    """CharacterSetValidator (shipped, used by InnateImmunity by default) on `ok <c> fine` with c ANY 7-bit character (z3 code
+    point): it rejects exactly the C0 control characters other than TAB/LF/CR (its documented contract), so a text carrying
+    any other control character is never let through by the innate gate."""
+    from symx.instrument import load_instrumented
+    INNI = load_instrumented("operon_ai.surveillance.innate")
+
+    def sym_ord(x):
+        if isinstance(x, SStr):
+            cell = x.cells[0]
+            return ord(cell) if isinstance(cell, str) else core.SInt.wrap(cell)
+        return ord(x)
+    INNI.__dict__["ord"] = sym_ord
+
+    def h(c):
+        cell = SStr.fresh(c, "ch", 1, "".join(chr(i) for i in range(128)))
+        text = "ok " + cell + " fine"
+        try:
+            ok, msg = INNI.CharacterSetValidator().validate(text)
+        except core.Unsupported:
+            raise
+        except Exception as e:  # noqa
+            c.fail("C10.f", {"what": "validator raised", "raised": repr(e)})
+            return
+        code = sym_ord(SStr.of(cell)) if not isinstance(cell, str) else ord(cell)
+        reject = b_and(code < 32, b_not(b_or(eq(code, 9), eq(code, 10), eq(code, 13))))
+        c.observe("ok", ok)
+        c.check("C10.a-charset", eq(ok, b_not(reject)) if not isinstance(ok, bool) or not isinstance(reject, bool) else ok == (not reject),
+                {"what": "character-set validator verdict differs from `reject exactly C0 controls other than TAB/LF/CR`", "accepted": ok})
+    return h
+
+
 # ---------------------------------------------------------------- matcher monotonicity on symbolic text
 REGEX_INSTANCES = {
     r"```system\b": "```system", r"\[INST\].*\[/INST\]": "[INST]x[/INST]", r"<\|im_start\|>": "<|im_start|>", r"<\|.*\|>": "<|a|>",
@@ -449,6 +482,7 @@ HARNESSES = {
               "jobs": lambda tier: [{"which": "membrane", "L": 2 if tier == "quick" else 3}, {"which": "innate", "L": 1 if tier == "quick" else 2}],
               "clauses": ["C10.g", "C10.g-case"]},
     "unicode_custom": {"make": unicode_custom, "witness_every": 0, "jobs": lambda tier: [{}], "clauses": ["C10.g-unicode"]},
+    "charset": {"make": charset, "witness_every": 1, "jobs": lambda tier: [{}], "clauses": ["C10.a-charset"]},
     "regex_selftest": {"make": regex_selftest, "witness_every": 0, "jobs": lambda tier: [{}], "clauses": ["C10.selftest"]},
 }
 
